@@ -277,3 +277,108 @@ func verifC13ResponseCode() {
 	vAssert(m.ResponseCode() == want, "ResponseCode = (OPT.TTL>>24)<<4 | RCODE")
 	vReach("rcode")
 }
+
+// ---- reference decoder for one uncompressed RR (RFC 1035 4.1.3) and for HTTPS
+// RDATA (RFC 9460 2.2: SvcParamKeys in strictly increasing order).
+
+type vRefParam struct {
+	key uint16
+	val []byte
+}
+
+// vRefReadName reads an uncompressed name at b[p:]; returns the dotted name and the next offset (-1 on error).
+func vRefReadName(b []byte, p int) (string, int) {
+	var out []byte
+	for {
+		if p >= len(b) {
+			return "", -1
+		}
+		l := int(b[p])
+		p++
+		if l == 0 {
+			return string(out), p
+		}
+		if l > 63 || p+l > len(b) {
+			return "", -1
+		}
+		if len(out) > 0 {
+			out = append(out, '.')
+		}
+		out = append(out, b[p:p+l]...)
+		p += l
+	}
+}
+
+// verifC13RefDecode: the bytes produced for an HTTPS record are parsed by an
+// independent RFC 1035 / RFC 9460 reference reader: owner, type, class, TTL,
+// RDLENGTH, priority, target, then SvcParams in strictly increasing key order
+// whose values equal the record's fields.
+func verifC13RefDecode() {
+	h := HTTPS{Priority: vUint16(), Target: vName(1), NoDefaultALPN: vBool(), Port: vUint16()}
+	if vBool() {
+		h.ALPN = []string{string(vBytes(2)), string(vBytes(1))}
+	}
+	if vBool() {
+		h.IPv4Hint = vIPs(1, 4)
+	}
+	if vBool() {
+		h.IPv6Hint = vIPs(1, 16)
+	}
+	if vBool() {
+		h.ECH = vBytes(3)
+	}
+	rr := RR{Name: vName(1), Type: 65, Class: 1, TTL: vUint32(), Data: h}
+	b := rr.Bytes()
+	name, p := vRefReadName(b, 0)
+	vAssert(p > 0 && name == rr.Name, "owner name")
+	vAssert(len(b) >= p+10, "fixed RR fields present")
+	vAssert(int(b[p])<<8|int(b[p+1]) == 65 && int(b[p+2])<<8|int(b[p+3]) == 1, "type and class")
+	vAssert(uint32(b[p+4])<<24|uint32(b[p+5])<<16|uint32(b[p+6])<<8|uint32(b[p+7]) == rr.TTL, "TTL")
+	rdlen := int(b[p+8])<<8 | int(b[p+9])
+	p += 10
+	vAssert(rdlen == len(b)-p, "RDLENGTH covers exactly the rest")
+	vAssert(len(b) >= p+2 && uint16(b[p])<<8|uint16(b[p+1]) == h.Priority, "SvcPriority")
+	target, q := vRefReadName(b, p+2)
+	vAssert(q > 0 && target == h.Target, "TargetName (uncompressed)")
+	var params []vRefParam
+	last := -1
+	for q < len(b) {
+		vAssert(len(b) >= q+4, "SvcParam header")
+		key := int(b[q])<<8 | int(b[q+1])
+		l := int(b[q+2])<<8 | int(b[q+3])
+		q += 4
+		vAssert(key > last, "SvcParamKeys appear in strictly increasing order")
+		last = key
+		vAssert(len(b) >= q+l, "SvcParam value within RDATA")
+		params = append(params, vRefParam{uint16(key), b[q : q+l]})
+		q += l
+	}
+	find := func(k uint16) ([]byte, bool) {
+		for _, pr := range params {
+			if pr.key == k {
+				return pr.val, true
+			}
+		}
+		return nil, false
+	}
+	v, ok := find(1)
+	vAssert(ok == (len(h.ALPN) > 0), "alpn present iff set")
+	if ok && len(h.ALPN) == 2 {
+		vAssert(len(v) == 5 && v[0] == 2 && v[3] == 1 && string(v[1:3]) == h.ALPN[0] && string(v[4:5]) == h.ALPN[1], "alpn value")
+	}
+	v, ok = find(2)
+	vAssert(ok == h.NoDefaultALPN && len(v) == 0, "no-default-alpn")
+	v, ok = find(3)
+	vAssert(ok == (h.Port > 0), "port present iff set")
+	if ok {
+		vAssert(len(v) == 2 && uint16(v[0])<<8|uint16(v[1]) == h.Port, "port value")
+	}
+	v, ok = find(4)
+	vAssert(ok == (len(h.IPv4Hint) > 0) && (!ok || vEqBytes(v, h.IPv4Hint[0])), "ipv4hint")
+	v, ok = find(5)
+	vAssert(ok == (len(h.ECH) > 0) && (!ok || vEqBytes(v, h.ECH)), "ech")
+	v, ok = find(6)
+	vAssert(ok == (len(h.IPv6Hint) > 0) && (!ok || vEqBytes(v, h.IPv6Hint[0])), "ipv6hint")
+	vAssert(len(params) <= 6, "no other parameters")
+	vReach("refdecoded")
+}
